@@ -1,19 +1,17 @@
 //@ assume: siphash_block is an uninterpreted function of (keys, nonce); the two endpoints are its low and high halves masked to the node range -- SipHash itself is outside; CuckooParams keeps its real fields; Proof is reduced to its nonce vector; global::proofsize() is an uninterpreted constant in 1..=2^20
-//@ assume: T6 rewrites: `vec![x; n]` => helper vec_filled (n copies of x); every `Err(Error::Verification("..".to_owned()))` => `Err(verr())`; integer literal types made explicit; `for n in 0..size` loops get spliced invariants
+//@ assume: T6 rewrites: `vec![x; n]` => helper vec_filled (n copies of x); every `Err(Error::Verification("<message>".to_owned()))` => `Err(Error::<Kind>)`, one abstract kind per message, so that the contract can say WHY the input checks fail; integer literal types made explicit; `for n in 0..size` loops get spliced invariants
 //@ assume: termination of the two cycle-following loops is NOT proved: exec_allows_no_decreases_clause
 //@ assume: assumed: u64::leading_zeros(x) >= 1 for x < 2^63 (std intrinsic; only used to show `1 + mask` cannot overflow)
-//@ assume: decided here, for ANY proof size and any siphash outputs (no bound): CuckarooContext::verify (Cuckaroo, the pre-hard-fork ASIC-resistant proof of work; bipartite graph, U endpoints at even and V endpoints at odd positions, two endpoints meet at a node when they are on the same side and carry the same value) never indexes out of range, and returns Ok ONLY IF the 2*size endpoints form one simple cycle through all `size` edges: starting from endpoint 0 and repeatedly moving to the UNIQUE other endpoint at the same node and then to the other end of that edge, the walk returns to endpoint 0 for the first time after exactly `size` steps, every node met has exactly two endpoints, all visited endpoints are distinct; plus nonces strictly ascending and within the edge mask. (The converse -- every such cycle is accepted -- is not decided.)
+//@ assume: decided here, for ANY proof size and any siphash outputs (no bound): CuckarooContext::verify (Cuckaroo, the pre-hard-fork ASIC-resistant proof of work; bipartite graph, U endpoints at even and V endpoints at odd positions, two endpoints meet at a node when they are on the same side and carry the same value) never indexes out of range, and returns Ok ONLY IF the 2*size endpoints form one simple cycle through all `size` edges: starting from endpoint 0 and repeatedly moving to the UNIQUE other endpoint at the same node and then to the other end of that edge, the walk returns to endpoint 0 for the first time after exactly `size` steps, every node met has exactly two endpoints, all visited endpoints are distinct; plus nonces strictly ascending and within the edge mask. The three input checks are exact: the wrong-length / edge-too-big / not-ascending errors are returned only for that reason. (The rest of the converse -- every simple cycle is accepted -- is not decided.)
 //@ assume: 64-bit target
-//@ assumed_items: 6
+//@ assumed_items: 5
 //@ fns: CuckarooContext::verify
 use vstd::std_specs::bits::*;
 global size_of usize == 8;
-pub enum Error { Verification }
+pub enum Error { WrongLen, TooBig, NotAscending, Endpoints, Branch, DeadEnd, TooShort }
 /// assumed property of the std intrinsic: a value below 2^63 has a leading zero
 #[verifier::external_body]
 proof fn axiom_lz_pos(x: u64) requires x < 0x8000_0000_0000_0000u64 ensures u64_leading_zeros(x) >= 1 { }
-#[verifier::external_body]
-fn verr() -> (r: Error) { unimplemented!() }
 pub struct Proof { pub nonces: Vec<u64> }
 impl Proof { pub fn proof_size(&self) -> (r: usize) ensures r == self.nonces@.len() { self.nonces.len() } }
 pub struct CuckooParams { pub proof_size: usize, pub num_edges: u64, pub siphash_keys: [u64; 4], pub edge_mask: u64, pub node_mask: u64 }
@@ -294,13 +292,13 @@ impl CuckarooContext {
 //@ extract core/src/pow/cuckaroo.rs :: impl PoWContext for CuckarooContext::verify
 //@   sigrewrite `fn verify(&self, proof: &Proof)` => `pub fn verify(&self, proof: &Proof)`
 //@   attr: #[verifier::exec_allows_no_decreases_clause]
-//@   rewrite `return Err(Error::Verification("wrong cycle length".to_owned()).into());` => `return Err(verr());`
-//@   rewrite `return Err(Error::Verification("edge too big".to_owned()));` => `return Err(verr());`
-//@   rewrite `return Err(Error::Verification("edges not ascending".to_owned()));` => `return Err(verr());`
-//@   rewrite `return Err(Error::Verification("endpoints don't match up".to_owned()));` => `return Err(verr());`
-//@   rewrite `return Err(Error::Verification("branch in cycle".to_owned()));` => `return Err(verr());`
-//@   rewrite `return Err(Error::Verification("cycle dead ends".to_owned()));` => `return Err(verr());`
-//@   rewrite `Err(Error::Verification("cycle too short".to_owned()))` => `Err(verr())`
+//@   rewrite `return Err(Error::Verification("wrong cycle length".to_owned()).into());` => `return Err(Error::WrongLen);`
+//@   rewrite `return Err(Error::Verification("edge too big".to_owned()));` => `return Err(Error::TooBig);`
+//@   rewrite `return Err(Error::Verification("edges not ascending".to_owned()));` => `return Err(Error::NotAscending);`
+//@   rewrite `return Err(Error::Verification("endpoints don't match up".to_owned()));` => `return Err(Error::Endpoints);`
+//@   rewrite `return Err(Error::Verification("branch in cycle".to_owned()));` => `return Err(Error::Branch);`
+//@   rewrite `return Err(Error::Verification("cycle dead ends".to_owned()));` => `return Err(Error::DeadEnd);`
+//@   rewrite `Err(Error::Verification("cycle too short".to_owned()))` => `Err(Error::TooShort)`
 //@   rewrite `let mut uvs = vec![0u64; 2 * size];` => `let mut uvs = vec_filled_u64(0u64, 2 * size);`
 //@   rewrite `let mut headu = vec![2 * size; 1 + mask as usize];` => `let mut headu = vec_filled_usize(2 * size, 1 + mask as usize);`
 //@   rewrite `let mut headv = vec![2 * size; 1 + mask as usize];` => `let mut headv = vec_filled_usize(2 * size, 1 + mask as usize);`
@@ -310,7 +308,7 @@ impl CuckarooContext {
 //@   before `let mut headu = vec_filled_usize(`:
 //@+    proof { let x = size as u64; axiom_lz_pos(x); let lz: u64 = u64_leading_zeros(x) as u64; axiom_u64_leading_zeros(x);
 //@+            assert((u64::MAX >> lz) < u64::MAX) by(bit_vector) requires 1 <= lz <= 64; }
-//@   before `for n in 0..size {\n\t\t\tif nonces[n] > self.params.edge_mask {`:
+//@   before `#1:for n in 0..size {`:
 //@+    let ghost nn: int = 2 * size;
 //@+    proof { assert(lists_ok(uvs@, mask, hc(headu@, headv@), prev@, nn, 0)); }
 //@   loop 1:
@@ -336,7 +334,7 @@ impl CuckarooContext {
 //@   before `xor0 ^= u;`:
 //@+    proof { assert(uvs@ == uvs1.update(2 * n + 1, v));
 //@+            assert forall|e: int| 0 <= e < 2 * n + 2 implies #[trigger] uvs@[e] == ep(self.params, nonces@, e) by { if e < 2 * n { assert(uvs@[e] == uvs0[e]); } } }
-//@   before `for n in 0..size {\n\t\t\tif prev[2 * n] == 2 * size {`:
+//@   before `#2:for n in 0..size {`:
 //@+    proof { lemma_lists_to_mixed(uvs@, mask, hc(headu@, headv@), prev@, nn); }
 //@   loop 2:
 //@+    invariant
@@ -392,6 +390,9 @@ impl CuckarooContext {
 //@+        }
 //@+    }
 //@   ensures:
+//@+    r matches Err(Error::WrongLen) ==> proof.nonces@.len() != sp_proofsize(),
+//@+    r matches Err(Error::TooBig) ==> exists|a: int| 0 <= a < proof.nonces@.len() && #[trigger] proof.nonces@[a] > self.params.edge_mask,
+//@+    r matches Err(Error::NotAscending) ==> exists|a: int| 1 <= a < proof.nonces@.len() && proof.nonces@[a - 1] >= #[trigger] proof.nonces@[a],
 //@+    r.is_ok() ==> proof.nonces@.len() == sp_proofsize()
 //@+        && (forall|a: int| 0 <= a < proof.nonces@.len() ==> #[trigger] proof.nonces@[a] <= self.params.edge_mask)
 //@+        && (forall|a: int| 1 <= a < proof.nonces@.len() ==> proof.nonces@[a - 1] < #[trigger] proof.nonces@[a])
